@@ -73,7 +73,8 @@ pub fn combined_ident( idents: Vec<Ident>) -> Ident {
         _ => {
             let mut combined_ident = idents[0].clone();
             for ident in idents[1..].iter() {
-                combined_ident = format_ident!("{combined_ident}_{ident}");
+                // explicit arguments: `format_ident!` removes the `r#` of a raw identifier, the joined name is never a keyword
+                combined_ident = format_ident!("{}_{}", combined_ident, ident);
             }
             return combined_ident;
         }
